@@ -53,7 +53,7 @@ def run(ctx):
                rule="generated dictionaries: every sequence of up to MaxFiles distinct files from a pool of five (redefinitions in base, under applications 1 / 4 / S6a (child of 4) / an unrelated one, three vendors, two types for one application id) "
                     "loaded in every order (spec/DictGen.tla), all lookups of the key neighbourhood (6 applications x 4 codes + 5 names x 5 vendors incl. wildcard and absent; commands; applications by id and type) after each Load; "
                     "embedded dictionaries: for all of base and a seeded sample (thorough: all) of the other definitions, lookups by code and by name from every application incl. an unrelated one with exact / wildcard / foreign / zero vendor, plus absent keys; "
-                    "every exported constant of avp/codes.go, commands.go, applications.go; every type name. non-trivial = resolves at another level than asked, or is absent; distinct by (application, key, vendor) / load order Since extended: a pool of seven files (a vendor-specific redefinition in the same application; application 1 alone); every sequence with both orders of querying the applications; an eighth file that renames codes; an application-level redefinition of a base command code.",
+                    "every exported constant of avp/codes.go, commands.go, applications.go; every type name. non-trivial = resolves at another level than asked, or is absent; distinct by (application, key, vendor) / load order Since extended: a pool of seven files (a vendor-specific redefinition in the same application; application 1 alone); every sequence with both orders of querying the applications; an eighth file that renames codes; an application-level redefinition of a base command code; an AVP-less messages file; a vendor-only code in application 1 with any-vendor lookups through FindAVP; undefined codes carried as placeholders.",
                samples=[{k: l[k] for k in ("app", "key", "vendor", "res")} for l in lines if l["ev"] == "lookup"][10:2000:700],
                exhaustive=False, rejected=len(bad), known_finding_hits={k: n for k, (n, _) in v.hits.items()})
     rc = v.finish()
